@@ -14,6 +14,7 @@ LEVEL = "model_checking"
 META = {
     "engine": "E1 nir2smt; exact reachability + one-step next-owner function + lasso search",
     "encoded": ["wishbone.bus.Arbiter.add", "wishbone.bus.Arbiter.elaborate"],
+    "also": 'same family as C08; lasso search for N <= 6',
     "bounds": "same configuration family as C08; next-owner: 2 frames from each reachable state; lasso: "
               "L = |reachable states| + 1 frames from any reachable state (completeness threshold of the finite "
               "state graph), per initiator",
